@@ -80,7 +80,7 @@ def plan(tier, seed):
 
 def required(tier):
     return {"returns-spectrum": 90, "finite-nonnegative": 90, "shape-and-tag": 90, "rejects-wrong-length": 150,
-            "named-parameter-matters": 300, "nesting-exact": 100, "label-swap-ladder": 8, "model-inventory": 1}
+            "named-parameter-matters": 300, "nesting-exact": 100, "sample-size-consistent": 80, "label-swap-ladder": 8, "model-inventory": 1}
 
 
 def run(spec, rec):
@@ -135,6 +135,15 @@ def run_wellformed(spec, rec, dadi, models):
             rec.check("finite-nonnegative", good, site=key, tags=tags, observed={"min": float(np.nanmin(d[k])), "finite": bool(np.all(np.isfinite(d[k])))})
             rec.check("shape-and-tag", list(d.shape) == [n + 1 for n in ns] and getattr(fs, "extrap_x", None) is not None, site=key, tags=tags,
                       observed={"shape": list(d.shape), "extrap_x": getattr(fs, "extrap_x", None)})
+            if rep == 0 and "inbreeding" not in key:
+                # the sample size is only used in the final sampling step: a larger sample projected down is the smaller sample
+                # (same grid, no extrapolation, so both sides sample the very same density).  Not for inbreeding models, where
+                # individuals rather than chromosomes are sampled
+                ns_big = [n + int(rng.integers(1, 4)) for n in ns]
+                okb, fb = rec.noraise("returns-spectrum", lambda: f(p, ns_big, pts), site=key, tags=dict(tags, bigger_sample=True))
+                if okb:
+                    pr = np.asarray(fb.project(ns).data, float)
+                    rec.close("sample-size-consistent", float(np.max(np.abs(pr[k] - d[k])) / max(float(np.max(np.abs(d[k]))), 1e-300)), 1e-8, site=key, tags=tags)
             if rep == 0:
                 # wrapped for extrapolation it is still a finite spectrum
                 ok2, fe = rec.noraise("returns-spectrum", lambda: Numerics.make_extrap_log_func(f)(p, ns, [pts, pts + 4, pts + 8]), site=key, tags=dict(tags, extrap=True))
